@@ -424,6 +424,6 @@ impl VhostUserMsgValidator for VhostUserGpuScanout {}
 
 // Verification harnesses (Kani); the sources live outside this repository.
 #[cfg(feature = "verif")]
-mod verif {
+pub(crate) mod verif {
     include!(concat!(env!("VHOST_VERIF_DIR"), "/harness/vu_gpu_message.rs"));
 }
